@@ -729,11 +729,19 @@ impl Display for LinearModel {
         } else {
             "".to_string()
         };
-        write!(
-            f,
-            "{} {}\ns.t.\n{}{}",
-            self.optimization_type, objective, constraints, domain
-        )
+        match self.optimization_type {
+            // `solve` takes no objective expression in the grammar
+            OptimizationType::Satisfy => write!(
+                f,
+                "{}\ns.t.\n{}{}",
+                self.optimization_type, constraints, domain
+            ),
+            OptimizationType::Min | OptimizationType::Max => write!(
+                f,
+                "{} {}\ns.t.\n{}{}",
+                self.optimization_type, objective, constraints, domain
+            ),
+        }
     }
 }
 
